@@ -164,10 +164,10 @@ ALL_SLICES = ["time", "network", "net_enum", "limits", "json_out", "tour_pos", "
               "tsp_ranges", "admission", "reassign", "pipeline", "mcf_bounds", "sched_guard", "depot_usage", "network_new", "json_writer",
               "objective", "train_formation_update", "update_tours", "remove_segment", "spawn_vehicle"]
 PROPS["C06"] = dict(
-    slices=["time", "network_new", "tsp_ranges", "mcf_bounds", "limits", "objective", "pipeline", "json_out"],
+    slices=["time", "network_new", "tsp_ranges", "mcf_bounds", "limits", "objective", "pipeline", "json_out", "transition"],
     thorough_slices=ALL_SLICES,
     witness_family=None,
-    level_text="per-function totality only: for every function under contract (quick tier: the stage-entry functions and the two places where the unchanged code used to panic -- overflow depot capacity, D5, and the 3-opt index ranges, D7 -- plus the time arithmetic, limits, objective and pipeline wiring; thorough tier: every slice) Verus proves that, under the function's stated preconditions (parts of instance validity and of schedule validity), no unwrap / expect / index / slice / division / explicit panic! is reachable, no integer operation overflows or underflows (so the optimised build and the build with arithmetic checks agree) and every loop terminates (decreases clauses; for-loops over finite sequences). That the preconditions hold along the whole pipeline, termination of the local search and of the external network simplex, and panic freedom of the functions not under contract are NOT decided",
+    level_text="per-function totality only: for every function under contract (quick tier: the places where the unchanged code used to panic -- overflow depot capacity D5/D13, flow-network edge bounds D14, 3-opt index ranges D7 -- plus the rotation-cycle operations, time arithmetic, limits, objective and pipeline wiring; thorough tier: every slice) Verus proves that, under the function's stated preconditions (parts of instance validity and of schedule validity), no unwrap / expect / index / slice / division / explicit panic! is reachable, no integer operation overflows or underflows (so the optimised build and the build with arithmetic checks agree) and every loop terminates (decreases clauses; for-loops over finite sequences). That the preconditions hold along the whole pipeline, termination of the local search and of the external network simplex, and panic freedom of the functions not under contract are NOT decided",
     level_note="trusted: as for the owning properties of each slice; stubs can hide panics of their bodies unless another slice verifies them (R7a/R7b classification in the evidence); println!/format! paths (R1, R9) and the SeqIter / im shims are assumed total",
     scope="panic freedom, absence of overflow and termination of each function under contract, under its stated preconditions",
     assumptions=A_COMMON + A_ITER + [
